@@ -270,6 +270,10 @@ def run_all(ctx, cfgbin, work, thorough):
         "IP address syntax is a catalogue (5 valid, 3 invalid literals), not a grammar",
         "for a missing brace any line from the damaged section's header to the end of that file is accepted as `the line`",
     ]
+    # the running server built from a configuration behaves as the configuration says (spec/serverapp; spec growth,
+    # DESIGN section 6): host/route order, redirect, WebSocket proxying and its byte pump, log-level masks
+    import c15_server
+    c15_server.run_part(ctx, "thorough" if thorough else "quick")
     return ctx.finish()
 
 
